@@ -51,6 +51,9 @@ PRIM_FINGERPRINTS = {
     'thread_local_pop': '5c67e580c3ab00fd',
 }
 
+HAND_WRITTEN_FINGERPRINTS = {'_detour_stack': 'd32809958e85b523', 'current_mappings': '93960e419a64f110', 'enter_scope': 'cca0423ecb32bab4',
+                             'leave_scope': 'a526e0a0b3a250ca', 'detour': '55531370e2a18398'}
+
 SPEC_FLAGS = ['notify_on_change', 'enable_type_check', 'allow_partial', 'as_sealed', 'allow_writable_accessors',
               'track_origin', 'auto_call_functors']
 
@@ -908,6 +911,14 @@ def translate(repo=None):
       not in [ast.dump(s) for s in dinit.body]:
     raise TranslationError('detour: self._tls is no longer a threading.local()')
   keys.add('detour', dconst['_DETOUR_STACK_KEY'], 'k_detour')
+  # the hand-written manager: fingerprints of what Model/Scopes.v detour_enter / detour_exit were written from (reported, not enforced:
+  # the tie for this manager is the correspondence check)
+  dfp = {}
+  for m in ('_detour_stack', 'current_mappings', 'enter_scope', 'leave_scope'):
+    dfp[m] = fingerprint(_find_fn(dt, m, '_DetourContext'))
+  dfp['detour'] = fingerprint(_find_fn(dt, 'detour'))
+  info['hand_written_fingerprints'] = dfp
+  info['hand_written_changed'] = sorted(k for k in dfp if HAND_WRITTEN_FINGERPRINTS.get(k) != dfp[k])
   hb = _parse(P('hyper/base.py'))
   hc = _module_consts(hb)
   if '_TLS_KEY_DYNAMIC_EVALUATE_FN' not in hc:
